@@ -377,6 +377,37 @@ def control_poll_once(ctx):
 CONTROLS = [control_poll_once]
 
 
+def rjudge_only_the_decoders_say_invalid_params(ctx):
+    """-32602 is the decoders' verdict: ErrorCode::InvalidParams is built by types::params::invalid_params (and named by the
+    code tables) and nowhere else in the library - no layer in front of the handlers judges the params text by a heuristic
+    of its own (a byte-level nesting count also counts brackets inside strings and refuses params that a full JSON parse
+    reads without any mismatch)."""
+    F, R = ctx.F, ctx.R
+    n = 0
+    bad = []
+    ALLOWED = r"^jsonrpsee_types::params::invalid_params$|^<jsonrpsee_types::error::ErrorCode as |^jsonrpsee_types::error::ErrorCode::"
+    for b in F.real_bodies():
+        if not b.crate.startswith("jsonrpsee_") or is_test_body(b):
+            continue
+        n += 1
+        for bi, blk in enumerate(b.blocks):
+            if blk.get("cleanup"):
+                continue
+            for st in blk["st"]:
+                if st["s"] == "assign" and st["rv"]["k"] == "agg" and st["rv"].get("variant") == "InvalidParams" and (st["rv"].get("adt") or "").endswith("ErrorCode") and not re.search(ALLOWED, b.path):
+                    bad.append((b, st["sp"][0]))
+                if st["s"] == "assign" and st["rv"]["k"] == "use":
+                    k = op_const(st["rv"]["op"])
+                    if k and (str(k.get("name", "")).endswith("INVALID_PARAMS_CODE") or str(k.get("int")) == "-32602") and not re.search(ALLOWED, b.path):
+                        bad.append((b, st["sp"][0]))
+    for b, line in bad:
+        R.fn(b)
+        R.bad("C16.R5", "%s:judges-params" % fkey(b), "%s produces `invalid params` (-32602) on its own: whether params are acceptable is decided by the decoders (agreement with a full JSON parse), not by a check in front of them" % short(b.path), "%s:%d" % (b.file, line))
+    if not bad:
+        R.ok("C16.R5", "only-decoders-judge", "ErrorCode::InvalidParams is produced only by invalid_params / the code tables (%d bodies)" % n)
+    R.floor("C16.R5", n, 600, "library bodies scanned")
+
+
 def rplain_request_decoder(ctx):
     """the params text reaches the decoders whatever its shape: the Request / Notification decoders are the plain derived
     ones (a validation hook on `params` makes the server take a call with scalar params for a notification and never
@@ -385,7 +416,7 @@ def rplain_request_decoder(ctx):
     c01.r8_classifiers_are_plain(ctx)
 
 
-LIB_RULES = [rplain_request_decoder, rrej_rejections_are_driven, r1_only_invalid_params, r2_poison_on_error, r3_exhaustion_table, r4_absent_params, rown_into_owned, rnext_reads_T, rws_separator_sees_no_whitespace, rone_is_one_array_parse]
+LIB_RULES = [rjudge_only_the_decoders_say_invalid_params, rplain_request_decoder, rrej_rejections_are_driven, r1_only_invalid_params, r2_poison_on_error, r3_exhaustion_table, r4_absent_params, rown_into_owned, rnext_reads_T, rws_separator_sees_no_whitespace, rone_is_one_array_parse]
 CONFIGS_QUICK = ["libs-all", "corpus"]
 CONFIGS_THOROUGH = ["libs-all", "facade-full", "corpus"]
 
